@@ -505,7 +505,7 @@ async fn run_t<TC: ModelCfg>(spec: Spec, do_c06: bool, do_c07: bool) -> Out {
                             }
                         }
                         // future markers: honest where absent, every shallow anchor where present
-                        let depth_choices = 4;
+                        let depth_choices = 5;
                         for choice in 0..depth_choices {
                             let mut p = base.clone();
                             p.future_marker_vrf_proofs.clear();
@@ -516,7 +516,19 @@ async fn run_t<TC: ModelCfg>(spec: Spec, do_c06: bool, do_c07: bool) -> Out {
                                 match forge.nonmembership(&fl) {
                                     Some(nm) => p.non_existence_of_future_marker_proofs.push(nm),
                                     None => {
-                                        let c = forge.nonmembership_candidates(&fl);
+                                        // the marker leaf exists: every anchor a server could choose, and (last choices) the honest
+                                        // absence proof of some OTHER, really absent label - as is, and relabelled to the marker
+                                        let mut c = forge.nonmembership_candidates(&fl);
+                                        let (_, absent) = forge.vrf(&l, true, cur + 7);
+                                        if let Some(foreign) = forge.nonmembership(&absent) {
+                                            let mut relabelled = foreign.clone();
+                                            relabelled.label = fl;
+                                            if choice == depth_choices - 2 {
+                                                c = vec![foreign];
+                                            } else if choice == depth_choices - 1 {
+                                                c = vec![relabelled];
+                                            }
+                                        }
                                         if c.is_empty() {
                                             continue;
                                         }
